@@ -298,6 +298,7 @@ define_language! {
         T3(AppliedId, AppliedId, AppliedId) = "t3",
         On(AppliedId, Bind<AppliedId>) = "on",
         W(Slot, AppliedId) = "w",
+        F5(Slot, Slot, Slot, Slot, Slot) = "f5",
     }
 }
 hlang!(Main, "main", sig = [
@@ -308,10 +309,10 @@ hlang!(Main, "main", sig = [
     vs(Some("g1"), vec![S]), vs(Some("g2"), vec![S, S]), vs(Some("g3"), vec![S, S, S]),
     vs(Some("h"), vec![A]), vs(Some("k"), vec![A, A]),
     vs(None, vec![L("u32")]), vs(None, vec![L("sym")]), vs(Some("t3"), vec![A, A, A]),
-    vs(Some("on"), vec![A, bk(A)]), vs(Some("w"), vec![S, A])
+    vs(Some("on"), vec![A, bk(A)]), vs(Some("w"), vec![S, A]), vs(Some("f5"), vec![S, S, S, S, S])
 ], { 0 => Lam(a), 1 => App(a, b), 2 => Var(a), 3 => Let(a, b), 4 => Add(a, b), 5 => Mul(a, b), 6 => Sum(a),
      7 => F2(a, b), 8 => F3(a, b, c), 9 => F4(a, b, c, d), 10 => G1(a), 11 => G2(a, b), 12 => G3(a, b, c),
-     13 => H(a), 14 => K(a, b), 15 => Number(a), 16 => Symbol(a), 17 => T3(a, b, c), 18 => On(a, b), 19 => W(a, b) });
+     13 => H(a), 14 => K(a, b), 15 => Number(a), 16 => Symbol(a), 17 => T3(a, b, c), 18 => On(a, b), 19 => W(a, b), 20 => F5(a, b, c, d, e) });
 
 /// dispatch a generic function over the harness languages by name
 #[macro_export]
